@@ -227,7 +227,8 @@ def _boundary_candidates(pin_term):
 
 
 # code points with special behaviour under case mapping, normalisation, line splitting, encodings
-_INTERESTING_CPS = (0x301, 0x212B, 0xDF, 0x130, 0x1C5, 0xFB01, 0x2028, 0x85, 0x0A, 0x0D, 0x00, 0x1F600, 0xE9, 0x3A3)
+# ... and under the host language's number parsing (blank, underscore, non-ASCII decimal digits, sign)
+_INTERESTING_CPS = (0x301, 0x212B, 0xDF, 0x130, 0x1C5, 0xFB01, 0x2028, 0x85, 0x0A, 0x0D, 0x00, 0x1F600, 0xE9, 0x3A3, 0x20, 0x5F, 0x661, 0xFF15, 0xA0, 0x2B)
 
 
 def _string_candidates(pin_term):
